@@ -15,7 +15,7 @@ func checkC16(c *Ctx) {
 	p := c.P
 	c.Decided = "every LeaderRotation.GetLeader is free of nondeterminism sources in its whole callee set (no map-order dependence, wall clock, unseeded randomness, channels or goroutines); the stateless schemes additionally write no shared memory, so they are functions of (view, replica count, immutable tree) and agree on every replica; " +
 		"round-robin has the closed form (view mod n) + 1 with unit dependence on the view, hence lies in [1, n] and visits every replica once in any n consecutive views; " +
-		"the carousel sorts its candidates before a draw seeded by shared seed + view, draws from signers of the committed head's QC that authored none of the last f committed blocks, and otherwise falls back to round-robin; the reputation scheme sorts its weights by id before the seeded draw and only it writes its own history."
+		"the carousel sorts its candidates before a draw seeded by shared seed + view, draws from signers of the committed head's QC that authored none of the last f committed blocks, and otherwise falls back to round-robin; the reputation scheme sorts its weights by id before the seeded draw and only it writes its own history. The carousel draws only when the committed head is exactly chainLength views behind the requested view; the reputation scheme updates a reputation only for a new committed head and returns no leader only for views before the committed horizon."
 	c.NotDec = "'exactly one turn' across the uint64 wrap-around; non-emptiness of the carousel's candidate list (needs |signers| > f, a C02 fact); that weightedrand picks deterministically for a given source (library assumption)."
 	c.Assume = append(c.Assume, "Blockchain.Get returns the locally stored ancestor for blocks below a committed head (they were stored before the head was committed), so it is cut from the determinism scan of the carousel",
 		"weightedrand.Chooser.PickSource is a deterministic function of its weights and source")
